@@ -14,7 +14,7 @@ from collections import Counter
 from typing import Any, Dict, List, Optional
 
 VERIF = os.path.dirname(os.path.dirname(os.path.abspath(__file__)))
-EVIDENCE_DIR = os.path.join(VERIF, "evidence")
+EVIDENCE_DIR = os.environ.get("VERIF_EVIDENCE_DIR") or os.path.join(VERIF, "evidence")  # the override is for the mutant self-test only
 REPLAY_DIR = os.path.join(EVIDENCE_DIR, "replay")
 WORK_DIR = os.path.join(EVIDENCE_DIR, ".work")
 KNOWN_FINDINGS = os.path.join(VERIF, "known_findings.json")
